@@ -2,7 +2,7 @@
    (or a one-line instantiation) and followed by Print Assumptions.  One file per property, importing only
    what that property's statements need, so that a change which breaks one property's proof leaves the
    others' theorems checkable. *)
-From NTRIP Require Import Base Net ProdCons.
+From NTRIP Require Import Base Net ProdCons NetSafety ProdConsSafe.
 From NTRIPGen Require Import GenConsts.
 
 (* ===================== C16 ===================== *)
@@ -58,3 +58,14 @@ Theorem C16_prefixes_always : forall (V : Type) lat (wait sync0 : bool) cap (blo
                      blocks = (passes V (main_out V c) ++ rest)%list.
 Proof. exact prefixes_always. Qed.
 Print Assumptions C16_prefixes_always.
+
+(* ... and the record is never more than capacity + 2 blocks behind standard output (one block in the recorder's
+   hands, the channel's content - never above its capacity -, one block just passed through): recording can hold
+   the pass-through back only by back-pressure through that bounded channel, and the copy loop cannot run away
+   from the recorder. *)
+Theorem C16_prefixes_bounded : forall (V : Type) lat (wait sync0 : bool) cap (blocks : list V) c, (1 <= cap)%nat ->
+  reachable _ _ _ (prog V lat true wait sync0) sender receiver (MDone V) (init V cap blocks) c ->
+  exists ahead rest, passes V (main_out V c) = (writes V (writer_out V c) ++ ahead)%list /\
+                     blocks = (passes V (main_out V c) ++ rest)%list /\ (length ahead <= cap + 2)%nat.
+Proof. exact prefixes_bounded. Qed.
+Print Assumptions C16_prefixes_bounded.
